@@ -33,6 +33,7 @@ func c07Trace(op string, inst int, seed uint64) (string, error) {
 		defer env.sys.Close(false)
 	}
 	env.seed, env.inst = seed, inst
+	env.conn.serve = op == "redownload"
 	if op == "startup" {
 		// a message marked deleted by the connector while a session is open, clean shutdown, start-up
 		if err := env.prefix("cdeleted"); err != nil {
